@@ -196,6 +196,12 @@ func VH_c05_upd_attr_pair() {
 	alen := int(buf[2])<<8 | int(buf[3])
 	vAssume(len(buf) == 4+alen)
 	vAssume(buf[4]&0x10 == 0 && int(buf[6]) <= 1) // first attribute: short, value of 0..1 bytes
+	vAssume(buf[5] == 1 || buf[5] == 6 || buf[5] == 250)
+	second := 7 + int(buf[6])
+	if len(buf) > second-2 {
+		t2 := buf[second-2]
+		vAssume(t2 == 1 || t2 == 4 || t2 == 6 || t2 == 8 || t2 == 250)
+	}
 	opt := &MarshallingOption{}
 	m := &BGPUpdate{}
 	err := m.DecodeFromBytes(buf, opt)
